@@ -15,7 +15,7 @@ RULE = ('(a) two engines, generator level: every ordered pair of actor scripts f
         'infinite enumeration) suspended simultaneously x ALL merge orders of their next() steps (pairs: 4 each, thorough 5; triples: 2 each, thorough 3), including queries over dynamic facts that contain variables; '
         '(c) two real threads, each with its own engine (assert two facts, enumerate a conjunction, use findall and, in a 4th body, assert and use facts that contain variables, one of them twice; '
         'retract), under a baton scheduler that makes every traced source line of yldprolog and of the loaded script a '
-        'scheduling point: every schedule with <= 1 preemption [thorough: <= 2 for the conjunction body]. (d) a fault in one engine: in a process that has never resolved a call, engine A runs each of 4 queries under every recursion limit 6..69 (the limit strikes at every depth of the first resolution of every predicate), then a NEW engine B must answer all queries completely. Oracle, without hand-written '
+        'scheduling point: every schedule with <= 1 preemption [thorough: <= 2 for the conjunction body]. (c2) bodies 1 and 4 again with every logger at DEBUG and the records kept. (d) a fault in one engine: in a process that has never resolved a call, engine A runs each of 4 queries under every recursion limit 6..69 (the limit strikes at every depth of the first resolution of every predicate), then a NEW engine B must answer all queries completely. Oracle, without hand-written '
         'expectations: the observation log of each actor / query / thread equals the log of the same script run alone. '
         'The first schedule is executed twice and must reproduce. states = distinct observation logs; transitions = '
         'actor steps resp. scheduling points executed; non-trivial = steps of different actors actually alternate')
@@ -415,6 +415,9 @@ def plan(tier):
         nshard = 8 if bound == 1 else 64
         sh += [('c', variant, bound, (start, k), nshard) for start in (0, 1) for k in range(nshard)]
     sh += [('d', k, 4) for k in range(4)]
+    # the conjunction and variable-fact bodies again in a process whose loggers are at DEBUG (records kept)
+    for variant in (0, 3):
+        sh += [('c', variant, 1, (start, k), 8, 'logged') for start in (0, 1) for k in range(8)]
     return sh
 
 
@@ -529,7 +532,23 @@ def _run_shard(spec):
             if idx % 17 == 0:
                 acc.sample({'part': 'b', 'queries': [show_term(g) for g in goals], 'merge_orders': oi + 1}, limit=1)
     else:
-        _, variant, bound, (start, k), n = spec
+        _, variant, bound, (start, k), n = spec[:5]
+        logged = len(spec) > 5
+        if logged:
+            import collections
+            import logging
+
+            class Keep(logging.Handler):
+                records = collections.deque(maxlen=5000)
+
+                def emit(self, record):
+                    self.records.append(record)
+            root = logging.getLogger()
+            lg = logging.getLogger('yldprolog')
+            root.addHandler(Keep())
+            root.setLevel(logging.DEBUG)
+            lg.setLevel(logging.DEBUG)
+            lg.propagate = True
         pytext = compile_cached(show_program(PROG_C))
         # reference: each body alone
         try:
